@@ -26,3 +26,13 @@ if __name__=="__main__":
         print("PARENT (eval order):"); [print("  ",o) for o in reversed(p)]
         print("TRACE:",tr)
         print("CHILD (eval order):"); [print("  ",o) for o in reversed(c)]
+
+def arena(toks, i=0):
+    n=toks[i]; i+=1; out=[]
+    for k in range(n):
+        t=toks[i]
+        if t==0: out.append(f"n{k} = var{toks[i+1]}"); i+=2
+        elif t==1: out.append(f"n{k} = {f(toks[i+1])}"); i+=2
+        elif t==2: out.append(f"n{k} = {UN[toks[i+1]]} n{toks[i+2]}"); i+=3
+        elif t==3: out.append(f"n{k} = {BI[toks[i+1]]} n{toks[i+2]} n{toks[i+3]}"); i+=4
+    return out, i
